@@ -722,7 +722,7 @@ func fieldAddrIsWrite(fa *ssa.FieldAddr) bool {
 func ruleL4(r *Report) {
 	L := r.Shared.Lockset()
 	hf := r.Rule("L4.fill", "L", "every access to the collection's fill list holds the collection mutex — exclusively when the access writes (Set/Remove/Grow/store)", 8)
-	hc := r.Rule("L4.count", "S", "the row counter is only accessed through sync/atomic", 4)
+	hc := r.Rule("L4.count", "S", "the row counter is only accessed through sync/atomic, and an absolute store of it is made inside the exclusive collection-mutex section that counted the fill list", 4)
 	hm := r.Rule("L4.commits", "L", "the per-block commit-id table is read under the collection mutex, its elements are stored under the block's exclusive latch, and its header is replaced under the exclusive collection mutex", 3)
 	type agg struct {
 		bad *LSite
@@ -815,6 +815,64 @@ func ruleL4(r *Report) {
 				}
 			}
 			hc.Check(okAtomic, n, r.P.InstrPos(ins), "atomic access", "row counter accessed other than through sync/atomic")
+			// an absolute store publishes a count of the fill list: it is made inside the exclusive
+			// section in which the list was counted (next() adds 1 to the counter under the same
+			// mutex; a store of a count taken earlier wipes that increment out)
+			for _, ref := range *fa.Referrers() {
+				c, isCall := ref.(*ssa.Call)
+				if !isCall || !calleeIs(&c.Call, "sync/atomic.StoreUint64") {
+					continue
+				}
+				if _, fresh := fa.X.(*ssa.Alloc); fresh {
+					continue
+				}
+				held := true
+				var w *LSite
+				for i, s := range L.At[c] {
+					if !s.Held.hasW("Collection.lock") {
+						held, w = false, &L.At[c][i]
+						break
+					}
+				}
+				stale := false
+				if len(c.Call.Args) == 2 {
+					var cnt ssa.Instruction
+					v := strip(c.Call.Args[1])
+					for k := 0; k < 4 && cnt == nil; k++ {
+						switch x := v.(type) {
+						case *ssa.Convert:
+							v = strip(x.X)
+						case *ssa.Call:
+							if methodOn(&x.Call, "github.com/kelindar/bitmap", "Bitmap", "Count") {
+								cnt = x
+							}
+							k = 4
+						}
+					}
+					if cnt != nil {
+						allInstrs(c.Parent(), func(u ssa.Instruction) {
+							cc, isDefer, _ := callCommon(u)
+							if cc == nil || isDefer {
+								return
+							}
+							if op, ok := L.classifyLock(cc, c.Parent()); ok && !op.Acquire && op.Name == "Collection.lock" {
+								if between(cnt, u, c) {
+									stale = true
+								}
+							}
+						})
+					}
+				}
+				switch {
+				case !held && len(L.At[c]) > 0:
+					o := hc.Bad(n+"/store-locked", r.P.InstrPos(c), "the row counter is overwritten outside the exclusive collection mutex: an offset reserved by next() in between (counter+1 under the mutex) is wiped out of the counter, which next() uses to decide whether the fill list has a free bit")
+					setWitness(o, w)
+				case stale:
+					hc.Bad(n+"/store-locked", r.P.InstrPos(c), "the row counter is overwritten with a count of the fill list taken in an earlier critical section: the mutex was released between counting and publishing")
+				default:
+					hc.OK(n+"/store-locked", r.P.InstrPos(c), "absolute store inside the exclusive section that counted the fill list")
+				}
+			}
 		}
 	}
 	emit := func(h *RuleH, m map[string]*agg) {
@@ -1416,4 +1474,16 @@ func ruleRegistryLists(r *Report) {
 			h.OK(n, r.P.Pos(fn.Pos()), "")
 		}
 	}
+}
+
+// between: u may execute after a and before b on some path (same-block order by index, otherwise by
+// reachability).
+func between(a, u, b ssa.Instruction) bool {
+	after := func(x, y ssa.Instruction) bool { // y may run after x
+		if x.Block() == y.Block() {
+			return instrIndex(x) < instrIndex(y) || inCycle(x.Block())
+		}
+		return reachAvoiding(x.Block(), y.Block(), nil, nil)
+	}
+	return after(a, u) && after(u, b)
 }
